@@ -88,7 +88,7 @@ func init() {
 		symPkg + ".LiveThreads":    func(fr *frame, args []value) value { return fr.i.liveThreads() },
 		symPkg + ".Concretize":     symConcretize,
 		symPkg + ".Yield":          func(fr *frame, args []value) value { fr.i.yield(fr); return nil },
-		symPkg + ".Clock":          timeNow,
+		symPkg + ".Clock":          symClock,
 		symPkg + ".Fail":           symFail,
 		symPkg + ".Thorough":       func(fr *frame, args []value) value { return fr.i.cfg.Tier == "thorough" },
 		symPkg + ".Bound":          symBound,
@@ -217,6 +217,9 @@ func init() {
 		"time.Now":               timeNow,
 		"time.runtimeNano":       constFn(int64(1)),
 		"time.Since":             timeSince,
+		"(time.Time).Sub":        timeSub,
+		"(time.Time).Format":     timeOpaqueText,
+		"(time.Time).String":     timeOpaqueText,
 		"time.Until":             timeUntil,
 		"internal/godebug.(*Setting).Value":         constFn(""),
 		"(*internal/godebug.Setting).Value":         constFn(""),
@@ -339,11 +342,51 @@ func init() {
 // exact rational d/unit (see symFloat); concrete durations run the real body.
 func durFloat(unit int64) intrinsic {
 	return func(fr *frame, args []value) value {
+		in := fr.i
 		if s, ok := args[0].(*Sym); ok {
-			return symFloat{num: fr.i.to64(s), div: unit}
+			t := in.to64(s)
+			// checked algebraic rewrite: (x*c)/unit == x*(c/unit) when unit | c and
+			// x*c cannot have wrapped; the side condition is discharged by the solver.
+			if t.Op == term.OpMul {
+				for k := 0; k < 2; k++ {
+					c, x := t.Args[k], t.Args[1-k]
+					if c.IsConst() && int64(c.Val) > 0 && int64(c.Val)%unit == 0 {
+						lim := uint64((int64(1) << 62) / int64(c.Val))
+						inRange := in.ts.And(in.ts.Bin(term.OpSLe, in.ts.Const(64, -lim), x), in.ts.Bin(term.OpSLe, x, in.ts.Const(64, lim)))
+						if in.provable(inRange) {
+							q := int64(c.Val) / unit
+							return symFloat{num: in.ts.Bin(term.OpMul, x, in.ts.Const(64, uint64(q))), div: 1}
+						}
+					}
+				}
+			}
+			return symFloat{num: t, div: unit}
 		}
-		return fr.i.interpretBody(fr, args)
+		return in.interpretBody(fr, args)
 	}
+}
+
+// timeSub models t.Sub(u) for symbolic wall-clock instants without sub-second
+// part as (t.sec-u.sec)*1e9, after proving that the difference is far from the
+// saturation range of time.Duration; anything else runs the real body.
+func timeSub(fr *frame, args []value) value {
+	in := fr.i
+	t, u := args[0].(structure), args[1].(structure)
+	if !hasSym(t) && !hasSym(u) {
+		return in.interpretBody(fr, args)
+	}
+	tw, ok1 := t[0].(uint64)
+	uw, ok2 := u[0].(uint64)
+	if !ok1 || !ok2 || tw != 0 || uw != 0 {
+		return in.interpretBody(fr, args)
+	}
+	diff := in.ts.Bin(term.OpSub, in.val64(t[1]), in.val64(u[1]))
+	lim := uint64(4_000_000_000)
+	inRange := in.ts.And(in.ts.Bin(term.OpSLe, in.ts.Const(64, -lim), diff), in.ts.Bin(term.OpSLe, diff, in.ts.Const(64, lim)))
+	if !in.provable(inRange) {
+		return in.interpretBody(fr, args)
+	}
+	return in.fromTerm(in.ts.Bin(term.OpMul, diff, in.ts.Const(64, 1_000_000_000)), types.Int64)
 }
 
 func concreteBytes(v value) []byte {
@@ -908,13 +951,25 @@ func strCompare(fr *frame, args []value) value {
 
 // ------------------------------------------------------------------ time
 
-// timeNow returns a time.Time without monotonic reading whose seconds are an
-// arbitrary non-decreasing symbolic instant (second resolution).
+// The harness clock. sym.Clock() reads an arbitrary instant not earlier than
+// the previous reading (second resolution, no monotonic part); time.Now()
+// inside the code under test returns the most recent reading, i.e. code runs
+// instantaneously between two harness readings. (A counterexample that needs
+// the clock to jump between two adjacent time.Now() calls of one function is
+// not realistic, and could not be replayed natively.)
 func timeNow(fr *frame, args []value) value {
 	in := fr.i
 	if in.initDepth > 0 || in.cfg == nil {
 		return in.mkTime(in.ts.Const(64, 63900000000))
 	}
+	if in.clockLast == nil {
+		return symClock(fr, args)
+	}
+	return in.mkTime(in.clockLast)
+}
+
+func symClock(fr *frame, args []value) value {
+	in := fr.i
 	v := in.freshVar("clock", 64, "clock")
 	lo := in.ts.Const(64, 63900000000)
 	if in.clockLast != nil {
@@ -946,6 +1001,15 @@ func timeUntil(fr *frame, args []value) value {
 	now := timeNow(fr, nil)
 	sub := in.findMethod(in.prog.ImportedPackage("time").Type("Time").Type(), "Sub")
 	return in.callSSA(fr, token.NoPos, sub, []value{args[0], now}, nil)
+}
+
+// timeOpaqueText: rendering a symbolic instant as text is never what a
+// property is about (it feeds log lines); it becomes a fixed placeholder.
+func timeOpaqueText(fr *frame, args []value) value {
+	if hasSym(args[0]) {
+		return "<symbolic time>"
+	}
+	return fr.i.interpretBody(fr, args)
 }
 
 func uuidNew(fr *frame, args []value) value {
